@@ -165,6 +165,25 @@ def build() -> Check:
     ck.floor("wrapper_suspension_paths", n, 2)
     ck.ob("R3.wrapper-maps-suspension-to-pending", fn_construct(wrapper), not bad, bad[0][0] if bad else "")
 
+    # a branch that parks on a timer must be handed to the timer scheduler with that timestamp (else it is never resumed while siblings run)
+    from sa.protocol import done_callback_traces
+    fn_dc, dtr = done_callback_traces(pm)
+    badt = []
+    n_timed = 0
+    for t in dtr:
+        res = [e for e in t.events if e.kind == "RESULT"]
+        if not res or res[0].data["outcome"] != "TimedSuspendExecution" or t.outcome == "raise":
+            continue
+        n_timed += 1
+        sch = [e for e in t.events if e.kind == "SCHEDULE"]
+        park = [e for e in t.events if e.kind == "BRANCH" and e.data["method"] == "suspend_with_timeout"]
+        if not sch or sch[0].data["args"][:1] != ["exe_state"] or "scheduled_timestamp" not in " ".join(sch[0].data["args"]):
+            badt.append(("a branch parked on a timer is not scheduled for resumption at its timestamp", t))
+        if not park or "scheduled_timestamp" not in " ".join(park[0].data["args"]):
+            badt.append(("a branch parked on a timer does not record its resume time", t))
+    ck.floor("timed_suspension_paths", n_timed, 1)
+    ck.ob("R5.timed-branch-is-scheduled", fn_construct(fn_dc), not badt, badt[0][0] if badt else "")
+
     # R4 blocking inventory ------------------------------------------------------------------------------
     found = {}
     for fi in prog.functions.values():
